@@ -20,6 +20,13 @@ TABLE_RULES = [
     Rule('R5:context-path', r'context::Context', 'context::Context', why='(identity; prelude mirrors the path)'),
 ]
 
+DEFAULT_RULES = [
+    Rule('R7:default-map', r'request_data: Default::default\(\),', 'request_data: HashMap::new(),', 1, where='body',
+         why='`Default` of (Fnv)HashMap is the empty map (A-hashmap: FnvHashMap behaves as HashMap; the hasher is not modelled)'),
+    Rule('R7:default-delayqueue', r'deadlines: Default::default\(\),', 'deadlines: DelayQueue::new(),', 1, where='body',
+         why='`Default` of DelayQueue is `DelayQueue::new()` (tokio-util); prelude model: nothing armed'),
+]
+
 FX_CALLS = [r'\.complete_request\(', r'Self::poll_expired__closure\(']
 
 VOCAB = Raw('''
@@ -94,6 +101,13 @@ def parts():
         TypeItem(SRC, 'struct', 'AlreadyExistsError', attrs='#[derive(Debug)]'),
         Impl('impl<Res> InFlightRequests<Res>', [
             IMPL_VOCAB,
+            Fn(SRC, r'impl<Resp> Default for InFlightRequests<Resp>', 'default', tags='C11', rules=DEFAULT_RULES,
+               pre='broadcast use vstd::std_specs::hash::group_hash_axioms;',
+               ensures='''
+                   // the induction base of the table invariant: a new table is well-formed and tracks nothing
+                   r.wf(), // @core:C01,C08,C11
+                   r@ =~= Map::<u64, CEntry>::empty() && r.timers() =~= Map::<delay_queue::Key, delay_queue::Entry>::empty(), // @C11
+               '''),
             Fn(SRC, IMPL, 'len', tags='C11',
                requires='self.wf(), // @core',
                ensures='n == self@.dom().len(), // @C11',
